@@ -214,10 +214,25 @@ func UnmarshalValue(span herrors.Span, self interface{}) (*Value, *VmInterrupt) 
 	}
 }
 
+// A value which has no JSON form (a range, a function, anywhere inside) makes MarshalValue panic: for a program that is
+// an error of the call, not the end of the host.
+func marshalValueChecked(self Value, span herrors.Span) (out interface{}, i *VmInterrupt) {
+	defer func() {
+		if reason := recover(); reason != nil {
+			out, i = nil, NewVMFatalException(fmt.Sprint(reason), Vm_JsonErrorKind, span)
+		}
+	}()
+	out, _ = MarshalValue(self, false)
+	return out, nil
+}
+
 func MarshalToString(self Value) *Value {
 	return NewValueBuiltinFunction(func(executor Executor, cancelCtx *context.Context, span herrors.Span, args ...Value) (*Value, *VmInterrupt) {
 		// TODO: fail if skipNull is true?
-		marshaled, _ := MarshalValue(self, false)
+		marshaled, i := marshalValueChecked(self, span)
+		if i != nil {
+			return nil, i
+		}
 		output, jsonErr := json.Marshal(marshaled)
 		if jsonErr != nil {
 			return nil, NewVMFatalException(jsonErr.Error(), Vm_JsonErrorKind, span)
@@ -229,7 +244,10 @@ func MarshalToString(self Value) *Value {
 func MarshalIndentToString(self Value) *Value {
 	return NewValueBuiltinFunction(func(_ Executor, cancelCtx *context.Context, span herrors.Span, args ...Value) (*Value, *VmInterrupt) {
 		// TODO: fail if skipNull is true?
-		marshaled, _ := MarshalValue(self, false)
+		marshaled, i := marshalValueChecked(self, span)
+		if i != nil {
+			return nil, i
+		}
 		output, jsonErr := json.MarshalIndent(marshaled, "", "    ")
 		if jsonErr != nil {
 			return nil, NewVMFatalException(jsonErr.Error(), Vm_JsonErrorKind, span)
